@@ -150,6 +150,7 @@ class C07(Prop):
       called = {}      # (ao, sig, kind) -> subscribe call returned (op index)
       effective = set()  # (ao, sig, kind) in effect: called, started, then settled
       ever = set()     # (ao, sig) ever subscribed
+      ever_called = []  # every subscribe call ever made (a clear() does not make earlier deliveries wrong)
       nid = [0]
       for idx, op in enumerate(case["ops"]):
         k = op[0]
@@ -167,6 +168,7 @@ class C07(Prop):
           else:
             charts[a].subscribe(Event(signal=signals[sig]), queue_type=kind)
           called[(a, sig, kind)] = idx
+          ever_called.append((a, sig, kind))
           flags["classes"].add("subscribe_%s_%s" % (where, "after_start" if a in started else "before_start"))
         elif k == "publish":
           _, a, sig, where = op
@@ -197,16 +199,17 @@ class C07(Prop):
             if key[0] in started:
               effective.add(key)
         elif k == "clear":
-          if all(key[0] in started for key in called):     # (no subscription still waiting for its object's start)
+          if len(started) == nao:      # (nothing is still waiting in the queue of an object that has not started)
             charts[0].fabric.clear()
             called.clear()
             effective.clear()
             flags["classes"].add("fabric_cleared")
       # subscriptions made after a publication may still catch it: widen "may" to all ever made
       for e in expect:
-        for (x, sg, kd) in called:
+        for (x, sg, kd) in set(ever_called):
           if sg == e["sig"]:
-            e["may"][x] = sum(1 for (x2, sg2, kd2) in called if x2 == x and sg2 == sg)
+            e["may"][x] = max(e["may"].get(x, 0),
+                              sum(1 for (x2, sg2, kd2) in set(ever_called) if x2 == x and sg2 == sg))
 
     s = detsched.Scheduler(schedule=case["schedule"], step_limit=600000,
                            trace_files=[files["activeobject"]])
